@@ -269,53 +269,54 @@ example : getInlineData EI ([69, 69, 73, 0, 73, 10] ++ [13, 10] ++ EI ++ 32 :: [
 
 /-! ## The glue around inline images: BI … ID dictionary, do_EI, LTImage, export -/
 
-/-- **inline_image.** A well-formed inline image written with abbreviated or full key names
-    (`BI /W w /H h /BPC b /CS cs ID␣ data EOL EI ws rest`): `do_keyword` pushes a stream whose
+/-- **inline_image.** A well-formed inline image written with any mixture of abbreviated and
+    full key names and colour space names (`BI /W w /Height h /BPC b /ColorSpace /G ID␣ data EOL EI ws rest`, …): `do_keyword` pushes a stream whose
     dictionary has exactly the four entries and whose data is exactly `data` — for every EOL form
     and whatever the last bytes of the data are — followed by `EI`, having consumed exactly
     `data EOL EI ws`; `do_EI` accepts it and `LTImage` reports the stored width, height, bits and
     colour space. -/
-theorem C18_inline_image (abbr : Bool) (k : Kind) (w h : Nat) (data sep rest : Bytes) (ws : UInt8)
+theorem C18_inline_image (sp : Spell) (k : Kind) (w h : Nat) (data sep rest : Bytes) (ws : UInt8)
     (hw : 1 ≤ w) (hh : 1 ≤ h) (hlen : data.length = h * rowBytes k w) (hsep : IsEol sep)
     (hws : isSpace ws = true) (hno : NoMarker (data ++ sep)) :
-    processID (writerObjs abbr k w h) (data ++ sep ++ EI ++ ws :: rest) =
-      .ok ⟨writerDict abbr k w h, data, true, (data ++ sep).length + 3⟩ ∧
-    doEI (writerDict abbr k w h) =
-      some ⟨.int w, .int h, .int (bpcOf k), [some (.name (csNameOf abbr k))], none⟩ := by
-  refine ⟨?_, doEI_writer abbr k w h⟩
+    processID (writerObjs sp k w h) (data ++ sep ++ EI ++ ws :: rest) =
+      .ok ⟨writerDict sp k w h, data, true, (data ++ sep).length + 3⟩ ∧
+    doEI (writerDict sp k w h) =
+      some ⟨.int w, .int h, .int (bpcOf k), [some (.name (csNameOf sp.vc k))], none⟩ := by
+  refine ⟨?_, doEI_writer sp k w h⟩
   unfold processID
   rw [assemble_writer]
   simp only []
   rw [eos_writer]
   simp only []
-  rw [size_writer abbr k w h hw hh, ← hlen, C18_inline_capture data sep rest ws hsep hws hno]
+  rw [size_writer sp k w h hw hh, ← hlen, C18_inline_capture data sep rest ws hsep hws hno]
   rfl
 
 /-- **inline_image_exported.** End to end for inline images: content-stream bytes → pushed
     stream → LTImage → `export_image` → a new `*.bmp` that the BMP reader decodes to exactly the
     stored samples. -/
-theorem C18_inline_image_exported (abbr : Bool) (k : Kind) (w h : Nat) (data sep rest name : Bytes) (ws : UInt8)
+theorem C18_inline_image_exported (sp : Spell) (k : Kind) (w h : Nat) (data sep rest name : Bytes) (ws : UInt8)
     (existing : List Bytes) (hw : 1 ≤ w) (hh : 1 ≤ h) (hfit : FitsBmp k w h)
     (hlen : data.length = h * rowBytes k w) (hsep : IsEol sep) (hws : isSpace ws = true)
     (hno : NoMarker (data ++ sep)) :
     ∃ p f img nm file,
-      processID (writerObjs abbr k w h) (data ++ sep ++ EI ++ ws :: rest) = .ok p ∧
+      processID (writerObjs sp k w h) (data ++ sep ++ EI ++ ws :: rest) = .ok p ∧
       p.consumed = (data ++ sep).length + 3 ∧ p.pushEI = true ∧
       doEI p.dict = some f ∧ toImgIn f [] name p.data = some img ∧
       exportImage img existing = .ok (nm, file) ∧ nm ∉ existing ∧
       readBMP file = some (w, h, samplesRGB k w h data) := by
-  obtain ⟨hp, hf⟩ := C18_inline_image abbr k w h data sep rest ws hw hh hlen hsep hws hno
+  obtain ⟨hp, hf⟩ := C18_inline_image sp k w h data sep rest ws hw hh hlen hsep hws hno
   obtain ⟨nm, file, hexp, hfresh, _, hread⟩ :=
-    C18_bmp_rt k abbr w h data name existing [] (by intro f hf; cases hf) hw hh hfit hlen
-  refine ⟨_, _, ⟨[], csOfKind k abbr, false, bpcOfKind k, w, h, name, data⟩, nm, file, hp, rfl, rfl, hf, ?_, hexp,
+    C18_bmp_rt k sp.vc w h data name existing [] (by intro f hf; cases hf) hw hh hfit hlen
+  refine ⟨_, _, ⟨[], csOfKind k sp.vc, false, bpcOfKind k, w, h, name, data⟩, nm, file, hp, rfl, rfl, hf, ?_, hexp,
     hfresh, hread⟩
-  cases abbr <;> cases k <;>
+  obtain ⟨kw, kh, kb, kc, vc⟩ := sp
+  cases vc <;> cases k <;>
     simp (config := { decide := true }) only [toImgIn, csNameOf, bpcOf, csOfKind, bpcOfKind, Int.toNat_natCast,
       Int.natCast_nonneg, and_self, if_true, true_and] <;>
     rfl
 
 /-- Non-vacuity: a 2×1 gray image whose data is `A CR`, written with a bare LF before `EI`. -/
-example : (match processID (writerObjs true .gray8 2 1) ([65, 13] ++ [10] ++ EI ++ 32 :: [81]) with
+example : (match processID (writerObjs ⟨false, true, true, false, true⟩ .gray8 2 1) ([65, 13] ++ [10] ++ EI ++ 32 :: [81]) with
     | .ok p => some (p.data, p.pushEI, p.consumed, inlineSize p.dict)
     | .error _ => none) = some ([65, 13], true, 6, some 2) := by
   decide +kernel
